@@ -233,3 +233,106 @@ func (p *Prog) isErrSetter(obj *types.Func) bool {
 	})
 	return res
 }
+
+// anchorEmptyLine: the predicate of internal/io that ReadCSV applies to a row's fields (one [][]byte parameter,
+// one bool result, called from ReadCSV); by its name if that still exists.
+func (p *Prog) anchorEmptyLine() *ssa.Function {
+	if f := p.Func("internal/io", "isEmptyLine"); f != nil {
+		return f
+	}
+	rd := p.Func("internal/io", "ReadCSV")
+	if rd == nil {
+		return nil
+	}
+	var found *ssa.Function
+	eachInstr(rd, func(in ssa.Instruction) {
+		call, ok := in.(*ssa.Call)
+		if !ok {
+			return
+		}
+		h := call.Call.StaticCallee()
+		if h == nil || h.Pkg != rd.Pkg || len(h.Params) != 1 || h.Signature.Results().Len() != 1 {
+			return
+		}
+		if b, ok := h.Signature.Results().At(0).Type().Underlying().(*types.Basic); !ok || b.Kind() != types.Bool {
+			return
+		}
+		if sl, ok := h.Params[0].Type().Underlying().(*types.Slice); ok {
+			if _, ok := sl.Elem().Underlying().(*types.Slice); ok {
+				found = h
+			}
+		}
+	})
+	return found
+}
+
+// anchorEnumEqualTypes: the function of internal/ecolumn that takes two enum columns and answers with a bool.
+func (p *Prog) anchorEnumEqualTypes() *ssa.Function {
+	if f := p.Func("internal/ecolumn", "equalTypes"); f != nil {
+		return f
+	}
+	var found *ssa.Function
+	for _, f := range p.FuncsIn("internal/ecolumn") {
+		if f.Parent() != nil || f.Signature.Results().Len() != 1 {
+			continue
+		}
+		if b, ok := f.Signature.Results().At(0).Type().Underlying().(*types.Basic); !ok || b.Kind() != types.Bool {
+			continue
+		}
+		n := 0
+		for _, prm := range f.Params {
+			if nt, ok := prm.Type().(*types.Named); ok && nt.Obj().Name() == "Column" && nt.Obj().Pkg() == f.Pkg.Pkg {
+				n++
+			}
+		}
+		if n == 2 && len(f.Params) == 2 {
+			found = f
+		}
+	}
+	return found
+}
+
+// anchorIsQuoted: the string predicate of internal/strings that CheckName consults about quotes: a (string) bool
+// function of the package called from CheckName.
+func (p *Prog) anchorIsQuoted() *ssa.Function {
+	if f := p.Func("internal/strings", "isQuoted"); f != nil {
+		return f
+	}
+	cn := p.Func("internal/strings", "CheckName")
+	if cn == nil {
+		return nil
+	}
+	var found *ssa.Function
+	eachInstr(cn, func(in ssa.Instruction) {
+		call, ok := in.(*ssa.Call)
+		if !ok {
+			return
+		}
+		h := call.Call.StaticCallee()
+		if h == nil || h.Pkg != cn.Pkg || len(h.Params) != 1 || h.Signature.Results().Len() != 1 {
+			return
+		}
+		pb, ok1 := h.Params[0].Type().Underlying().(*types.Basic)
+		rb, ok2 := h.Signature.Results().At(0).Type().Underlying().(*types.Basic)
+		if ok1 && ok2 && pb.Kind() == types.String && rb.Kind() == types.Bool {
+			found = h
+		}
+	})
+	return found
+}
+
+// executeOf: the method of the root-package type typeName with the signature of Expression.execute (whatever its name).
+func (p *Prog) executeOf(typeName string) *ssa.Function {
+	if f := p.Func("", typeName+".execute"); f != nil {
+		return f
+	}
+	for _, f := range p.FuncsIn("") {
+		if f.Signature.Recv() == nil || f.Parent() != nil || !isExecuteSig(f.Signature) {
+			continue
+		}
+		if n, ok := deref(f.Signature.Recv().Type()).(*types.Named); ok && n.Obj().Name() == typeName {
+			return f
+		}
+	}
+	return nil
+}
